@@ -14,3 +14,8 @@ CLAIMED['C18'] = (
  'For every value inside the stated bounds (all n < 2^64, all 9-byte buffers, all script numbers |n| < 2^63, listed push lengths, all raw scripts of <= 2 (thorough 3) bytes, command sequences of <= 2 (thorough 3) items with symbolic opcodes/content) z3 returned unsat for the negated property on every feasible path of the real functions; counterexamples are replayed on the unshimmed library before being reported.',
  'Trusted: z3, the proxy/shim layer (validated by witness replay on every path), the reference models in /verif/ref/wire.py. Outside: longer scripts, PUSHDATA4, listed known findings (varstr of a single zero byte, whole-script size heuristics, nested-data parsing).',
  'DESIGN.md C18')
+CLAIMED['C19'] = (
+ 'symbolic execution of every real Stack.op_* method and of Script.evaluate (symx proxies over z3 bit-vectors) against a reference EvalScript transcribed from Bitcoin Core; per-path SMT obligations with deviation models for listed findings',
+ 'Per opcode: for every stack of depth 0..arity+1 with operand items of every length 0..5 (arithmetic) / 0..2 (stack ops) and fully symbolic content, z3 shows the real op method has the consensus outcome (same success/failure, same stack) or exactly a listed deviation; through the real Script.evaluate: every program of <= 3-4 (thorough 4) commands over a 13-symbol flow/verdict alphabet with symbolic push contents has the reference verdict. Anything that is neither consensus nor a listed deviation is reported after concrete replay.',
+ 'Trusted: z3, proxy/shim layer (witness replay per path), reference interpreter /verif/ref/interp.py, hash opcodes as shared uninterpreted symbols. Outside: CHECKSIG family, altstack, CLTV/CSV, longer programs. Listed findings: 10 deviation models (operand order of SUB/LESSTHAN.., WITHIN, 2SWAP, PICK/ROLL, TUCK, byte-wise truthiness and NUMEQUAL).',
+ 'DESIGN.md C19')
